@@ -96,10 +96,14 @@ bool plan_from_json(const std::string& s, Plan& p, const Harness& h) {
   return true;
 }
 
+static __thread const char* tl_crash_site = nullptr;
+}  // namespace rt
+void set_crash_site(const char* site) { rt::tl_crash_site = site; }
+namespace rt {
 static void crash_handler(int sig, siginfo_t* si, void*) {
   char buf[200];
   snprintf(buf, sizeof buf, "signal %d (%s) fault address %p in T%d", sig, sig == SIGSEGV ? "SIGSEGV" : sig == SIGBUS ? "SIGBUS" : sig == SIGFPE ? "SIGFPE" : sig == SIGABRT ? "SIGABRT" : "SIGILL", si ? si->si_addr : nullptr, self ? self->id : -1);
-  finish(1, "crash", sig == SIGABRT ? "abort" : "signal", buf);
+  finish(1, "crash", tl_crash_site ? tl_crash_site : (sig == SIGABRT ? "abort" : "signal"), buf);
 }
 
 static void run_spec(const RunSpec& spec) {
@@ -188,6 +192,14 @@ static void run_spec(const RunSpec& spec) {
   sigaction(SIGFPE, &sa, nullptr);
   sigaction(SIGILL, &sa, nullptr);
   sigaction(SIGABRT, &sa, nullptr);
+  // glibc's __libc_single_threaded flips on the first pthread_create and makes
+  // libstdc++ switch shared_ptr reference counts from plain to atomic ops (=
+  // scheduling points). Flip it now, so that the first run of a process sees
+  // the same instruction stream as every later one.
+  {
+    pthread_t th;
+    if (pthread_create(&th, nullptr, [](void*) -> void* { return nullptr; }, nullptr) == 0) pthread_join(th, nullptr);
+  }
   for (size_t i = 0; i < n; i++) run_spec(specs[i]);
   _exit(0);
 }
